@@ -11,6 +11,8 @@ import check
 
 GEN = []
 LEAN_MODULES = ['XfabVerif.Proofs.C19']
+# definitions the hand-written model mirrors (see harness/pins.py): a source change breaks the tie
+PINS = ['xfab/parameters.py:par', 'xfab/parameters.py:parameters', 'xfab/parameters.py:read_par_file']
 LEAN_DRIVER_MODULES = ['XfabVerif.Model.Params']
 AUDIT_FILES = ['XfabVerif/Model/Params.lean', 'ParamsDriver.lean']
 DRIVER = 'ParamsDriver.lean'
@@ -23,14 +25,14 @@ ASSUMPTIONS = [
     "strings are ASCII (CPython's float()/int() also accept Unicode digits and Unicode blanks; the model answers `bad` there and the generators stay inside ASCII)",
     "a float is an opaque token in the model; the theorem's float hypothesis is CPython's guarantee float(repr(x)) == x with repr(x) free of blanks and never an int literal",
     "NaN: only the canonical quiet NaN round-trips bit-exactly (repr prints every NaN as 'nan'); the correspondence compares NaNs as one class",
-    "oracle ints satisfy |n| < 2^1023: for |n| >= 2^1024 - 2^970 `dumbtypecheck` raises OverflowError (abs(vi - vf) with vf = inf); the model reproduces the raise, the oracle excludes such values",
-    "abs(vi - vf) < 1e-9 is taken as always true below that bound (float(str) and float(int) are both correctly rounded)",
+    "ints of any size are in scope (generators reach 10^400 and the band around 2^1024 - 2^970 where float(int) overflows); since the repair, dumbtypecheck keeps such literals as ints and never raises: an OverflowError answer is reported as a disagreement/violation",
+    "abs(vi - vf) < 1e-9 is modelled as always true: Python computes float(vi) - vf, and float(int), float(str) are both correctly rounded images of the same integer (difference exactly 0.0, also beyond 2^53); the correspondence would expose a counter-example",
     "files are written/read with the default text encoding on ASCII content; `sys.int_info.default_max_str_digits` (4300) is not reached (strings <= 4000 characters)",
     "asserts are enabled (no python -O)",
 ]
 TRUSTED_EXTRA = ["hand model lean/XfabVerif/Model/Params.lean (tied to xfab/parameters.py only by the correspondence run)"]
 
-BOUND = 2 ** 1024 - 2 ** 970          # smallest |n| with float(n) -> OverflowError
+BOUND = 2 ** 1024 - 2 ** 970          # smallest |n| for which float(n) raises OverflowError (float(str(n)) is inf)
 
 
 def mktmp(prefix):
@@ -372,7 +374,7 @@ def g_str(rng):
         return g_fuzz(rng)
     if r < 0.9:
         return g_numlike(rng)
-    return rng.choice([repr(g_float(rng)), str(g_int(rng, False))])
+    return rng.choice([repr(g_float(rng)), str(g_int(rng, True))])
 
 
 def g_val(rng, huge=True):
@@ -459,8 +461,7 @@ def run_both(seqs, tmpdir):
     """[(real answers, model answers)] for every history.
     `reload` = saveparameters(f); loadparameters(f) is sent to the model as `save` (its lines, rendered with Python's repr for
     the float tokens, must be the file the implementation wrote) followed by `load` of that file: the model carries a float
-    parsed from '1e5' as the token '1e5', the real file says '100000.0' - the same float, but not the same text when a later
-    OverflowError leaves it unparsed in the mapping."""
+    parsed from '1e5' as the token '1e5', the real file says '100000.0' - the same float, but not the same text."""
     reals, lines, spans = [], [], []
     for ops in seqs:
         r = RealRunner(tmpdir)
@@ -522,7 +523,7 @@ def classify_real(P, s):
     try:
         p.dumbtypecheck()
     except OverflowError:
-        return 'overflow'
+        return 'raise:OverflowError'
     return canon(p.parameters['k'])
 
 
@@ -622,15 +623,9 @@ def spec_coerce(v):
 
 
 def in_scope_value(v):
-    """values the oracle generates: ASCII; integer literals stay below the OverflowError bound (see ASSUMPTIONS)"""
-    if type(v) is int:
-        return abs(v) < 2 ** 1023
+    """values the oracle generates: ASCII strings (see ASSUMPTIONS); ints and integer literals of any size"""
     if type(v) is str:
-        if any(ord(c) > 127 for c in v):
-            return False
-        t = v.strip(_PYSPACE)
-        if _INT.fullmatch(t):
-            return abs(int(t.replace('_', ''))) < 2 ** 1023
+        return all(ord(c) <= 127 for c in v)
     return True
 
 
@@ -665,8 +660,7 @@ def g_good_str(rng):
 def g_good_val(rng):
     r = rng.random()
     if r < 0.35:
-        n = g_int(rng, False)
-        return n if abs(n) < 2 ** 1023 else 7
+        return g_int(rng, True)
     if r < 0.7:
         return g_float(rng)
     return g_good_str(rng)
@@ -836,7 +830,7 @@ def g_history(rng):
     pool = list(dict.fromkeys(rng.choices(NAMES, NAME_W, k=rng.randint(2, 6))))
     ops = []
     vary_n, variable = 0, set()
-    val = lambda: next(v for v in iter(lambda: g_val(rng, False), None) if in_scope_value(v))
+    val = lambda: next(v for v in iter(lambda: g_val(rng, True), None) if in_scope_value(v))
     for _ in range(rng.randint(1, 30)):
         k = rng.choices(['addpar', 'set', 'setpars', 'setvary', 'setvals', 'upself', 'upother'], [14, 14, 8, 8, 8, 5, 4])[0]
         if k == 'addpar':
@@ -885,7 +879,7 @@ def oracle(ctx, hints=()):
             for it in range(n2):
                 pre = {}
                 for _ in range(rng.randint(0, 3)):
-                    x = g_val(rng, False)
+                    x = g_val(rng, True)
                     if in_scope_value(x):
                         pre[g_good_name(rng)] = x
                 lines = []
